@@ -510,25 +510,25 @@ func obtainCollateral(fmspc string, ca string, options *Options) (*Collateral, e
 	collateral := &Collateral{}
 	logger.V(1).Info("Getting TCB Info API response from the Intel PCS")
 	if err := getTcbInfo(fmspc, getter, collateral); err != nil {
-		return nil, fmt.Errorf("unable to receive tcbInfo: %v", err)
+		return nil, fmt.Errorf("unable to receive tcbInfo: %w", err)
 	}
 	logger.V(1).Info("Successfully received TCB Info API response from the Intel PCS")
 
 	logger.V(1).Info("Getting QE Identity API response from the Intel PCS")
 	if err := getQeIdentity(getter, collateral); err != nil {
-		return nil, fmt.Errorf("unable to receive QeIdentity: %v", err)
+		return nil, fmt.Errorf("unable to receive QeIdentity: %w", err)
 	}
 	logger.V(1).Info("Successfully received QE Identity API response from the Intel PCS")
 
 	if options.CheckRevocations {
 		logger.V(1).Info("Getting PCK CRL from the Intel PCS")
 		if err := getPckCrl(ca, getter, collateral); err != nil {
-			return nil, fmt.Errorf("unable to receive PCK CRL: %v", err)
+			return nil, fmt.Errorf("unable to receive PCK CRL: %w", err)
 		}
 		logger.V(1).Info("Successfully received PCK CRL from the Intel PCS")
 		logger.V(1).Info("Getting Root CA CRL from the Intel PCS")
 		if err := getRootCrl(getter, collateral); err != nil {
-			return nil, fmt.Errorf("unable to receive Root CA CRL: %v", err)
+			return nil, fmt.Errorf("unable to receive Root CA CRL: %w", err)
 		}
 		logger.V(1).Info("Successfully received Root CA CRL from the Intel PCS")
 	}
